@@ -183,7 +183,7 @@ def idl_interfaces(pkg):
     out = []
     for m in re.finditer(r'\binterface\s+(\w+)\s*\{(.*?)\}\s*;', text, re.S):
         ops = []
-        for mm in re.finditer(r'([\w<>, ]+?)\s+(\w+)\s*\(([^)]*)\)\s*;', m.group(2)):
+        for mm in re.finditer(r'([\w<>:, ]+?)\s+(\w+)\s*\(([^)]*)\)\s*;', m.group(2)):
             args = []
             parts, cur, depth = [], "", 0
             for ch in mm.group(3):  # split at the commas outside <...>
@@ -196,6 +196,8 @@ def idl_interfaces(pkg):
             for a in [x.strip() for x in parts if x.strip()]:
                 w = a.split()
                 args.append((w[0] == "out", " ".join(w[1:-1]) if w[0] == "out" else " ".join(w[:-1]), w[-1]))
+            if '<' in mm.group(1) or '>' in mm.group(1):
+                args.append((True, "<" + mm.group(1).strip(), ""))  # a container return value: treated like a container out parameter
             ops.append((mm.group(2), mm.group(1).strip() != "void", args))
         out.append((m.group(1), ops))
     return out
@@ -203,7 +205,7 @@ def idl_interfaces(pkg):
 def upper1(s):
     return s[0].upper() + s[1:]
 
-def copy_back_clauses(nread, hasret):
+def copy_back_clauses(nread, hasret, trace=True):
     """Reply maps of a two-way proxy (C01: the caller gets the response context / status the implementation set):
     the maps handed to TarsInvoke are the caller's opts[0] / opts[1]; on a successful return the context map holds
     nothing but entries of the reply's Context with their values (it is emptied, then filled from the reply), likewise
@@ -224,14 +226,14 @@ def copy_back_clauses(nread, hasret):
     base = 'obj.gresp == addr(*tarsResp) && obj.gctx == contextMap && obj.gsta == statusMap'
     res = 'result1' if hasret else 'result0'
     apart = '(statusMap != contextMap && statusMap != tarsResp.Context)'
-    o = ['//@   site TarsInvoke#0 assert [C16] ((len(opts) == 1 || len(opts) == 2) ==> $5 == opts[0]) && (len(opts) == 2 ==> $4 == opts[1]) && $5 == contextMap && $4 == statusMap && $6 == tarsResp']
-    for site in ['TarsInvoke#0', 'NewReader#0'] + [').Read#%d' % k for k in range(nread)] + ['Trace).Call#1', 'tars.Trace#1']:
+    o = ['//@   site TarsInvoke#0 assert [C01,C16] ((len(opts) == 1 || len(opts) == 2) ==> $5 == opts[0]) && (len(opts) == 2 ==> $4 == opts[1]) && $5 == contextMap && $4 == statusMap && $6 == tarsResp']
+    for site in ['TarsInvoke#0'] + (['NewReader#0'] if nread else []) + [').Read#%d' % k for k in range(nread)] + (['Trace).Call#1', 'tars.Trace#1'] if trace else []):
         o += ['//@   site %s ghostafter obj.gresp = addr(*tarsResp)' % site,
               '//@   site %s ghostafter obj.gctx = contextMap' % site,
               '//@   site %s ghostafter obj.gsta = statusMap' % site]
-    o += ['//@   ensures [C16] (%s == nil && len(opts) == 1) ==> %s' % (res, sub(GC, RC + '.Context')),
-          '//@   ensures [C16] (%s == nil && len(opts) == 2) ==> %s' % (res, sub(GS, RC + '.Status')),
-          '//@   ensures [C16] (%s == nil && len(opts) == 2 && obj.gsta != obj.gctx && obj.gsta != %s.Context) ==> %s' % (res, RC, sub(GC, RC + '.Context')),
+    o += ['//@   ensures [C01,C16] (%s == nil && len(opts) == 1) ==> %s' % (res, sub(GC, RC + '.Context')),
+          '//@   ensures [C01,C16] (%s == nil && len(opts) == 2) ==> %s' % (res, sub(GS, RC + '.Status')),
+          '//@   ensures [C01,C16] (%s == nil && len(opts) == 2 && obj.gsta != obj.gctx && obj.gsta != %s.Context) ==> %s' % (res, RC, sub(GC, RC + '.Context')),
           '//@   loop 0 invariant %s && len(opts) == 1 && %s' % (base, cleared(0, 'contextMap')),
           '//@   loop 1 invariant %s && len(opts) == 1 && %s' % (base, sub('contextMap', 'tarsResp.Context')),
           '//@   loop 2 invariant %s && len(opts) == 2 && %s' % (base, cleared(2, 'contextMap')),
@@ -242,7 +244,7 @@ def copy_back_clauses(nread, hasret):
     return o
 
 
-def iface_contracts(pkg):
+def iface_contracts(pkg, trace=True, only=None):
     """Wire agreement of the generated proxies and dispatcher with the IDL (C16/C01): parameter number i of an
     operation travels under tag i+1 in both directions, the return value under tag 0, and in the TUP encoding every
     attribute is its own buffer read and written under tag 0. The clauses speak about the codec calls of each
@@ -251,6 +253,8 @@ def iface_contracts(pkg):
     are read and written by inline code (no single call carries the tag): operations that have one are skipped."""
     o = []
     for iface, ops in idl_interfaces(pkg):
+        if only is not None and iface not in only:
+            continue
         drd, dwr = [], []
         skipped = False
         for op, hasret, args in ops:
@@ -264,18 +268,18 @@ def iface_contracts(pkg):
             loops6 = ["//@   loop %d invariant true\n//@   loop %d modifies everything" % (k, k) for k in range(6)]
             # proxy: every parameter is written under its tag; the reply carries the return value and the out parameters
             o += ["//@ func (*%s).%sWithContext" % (iface, upper1(op)), "//@   noframe"]
-            o += ["//@   site ).Write#%d assert [C16] $2 == %d" % (k, t) for k, t in enumerate(alls)]
+            o += ["//@   site ).Write#%d assert [C01,C16] $2 == %d" % (k, t) for k, t in enumerate(alls)]
             o += ["//@   sites ).Write = %d" % len(alls)]
             # the call goes out as a normal (two-way) packet under the operation's IDL name
-            o += ['//@   site TarsInvoke#0 assert [C16] $1 == 0 && $2 == "%s"' % op, "//@   sites TarsInvoke = 1"]
+            o += ['//@   site TarsInvoke#0 assert [C01,C16] $1 == 0 && $2 == "%s"' % op, "//@   sites TarsInvoke = 1"]
             rd = ret + outs
-            o += ["//@   site ).Read#%d assert [C16] $2 == %d" % (k, t) for k, t in enumerate(rd)]
-            o += ["//@   sites ).Read = %d" % len(rd)] + copy_back_clauses(len(rd), hasret) + ["//"]
+            o += ["//@   site ).Read#%d assert [C01,C16] $2 == %d" % (k, t) for k, t in enumerate(rd)]
+            o += ["//@   sites ).Read = %d" % len(rd)] + copy_back_clauses(len(rd), hasret, trace) + ["//"]
             o += ["//@ func (*%s).%sOneWayWithContext" % (iface, upper1(op)), "//@   noframe"]
-            o += ["//@   site ).Write#%d assert [C16] $2 == %d" % (k, t) for k, t in enumerate(alls)]
+            o += ["//@   site ).Write#%d assert [C01,C16] $2 == %d" % (k, t) for k, t in enumerate(alls)]
             o += ["//@   sites ).Write = %d" % len(alls), "//@   sites ).Read = 0"]
             # the one-way variant sends the same operation name with the one-way packet type and reads no reply
-            o += ['//@   site TarsInvoke#0 assert [C16] $1 == 1 && $2 == "%s"' % op, "//@   sites TarsInvoke = 1", "//"]
+            o += ['//@   site TarsInvoke#0 assert [C01,C16] $1 == 1 && $2 == "%s"' % op, "//@   sites TarsInvoke = 1", "//"]
             # dispatcher, per operation: TARS branch then TUP branch
             drd += ins + [0] * len(ins)
             dwr += ret + outs + [0] * len(ret + outs) + [None]  # the JSON reply is one untagged byte-slice write
@@ -287,8 +291,9 @@ def iface_contracts(pkg):
         # (ghost gimpfail: the implementation has just returned an error, gimperr: which. Every call is a havoc for
         # ghosts, so the flag is cleared after each call and no call may be made while it is set: between the
         # implementation's failure and the return nothing runs - a wrapper around the error would be such a call)
-        o += ["//@   site Int8ToByte#0 ghost obj.gimpfail = false",
-              "//@   site *#0 assert [C16] !obj.gimpfail",
+        anyin = any(not out for _, _, args in ops for out, _, _ in args)
+        o += ["//@   site %s#0 ghost obj.gimpfail = false" % ("Int8ToByte" if anyin else "codec.NewReader"),
+              "//@   site *#0 assert [C01,C16] !obj.gimpfail",
               "//@   site *#0 ghostafter obj.gimpfail = false"]
         for op, hasret, args in ops:
             r = "$ret1" if hasret else "$ret"
@@ -296,10 +301,10 @@ def iface_contracts(pkg):
                 o += ["//@   site %s.%s#0 ghostafter obj.gimperr = %s" % (sv, upper1(op), r),
                       "//@   site %s.%s#0 ghostafter obj.gimpfail = %s != nil" % (sv, upper1(op), r),
                       "//@   sites %s.%s = 1" % (sv, upper1(op))]
-        o += ["//@   ensures [C16] obj.gimpfail ==> result == obj.gimperr", "//@   perreturn"]
-        o += ["//@   site ).Read#%d assert [C16] $2 == %d" % (k, t) for k, t in enumerate(drd)]
+        o += ["//@   ensures [C01,C16] obj.gimpfail ==> result == obj.gimperr", "//@   perreturn"]
+        o += ["//@   site ).Read#%d assert [C01,C16] $2 == %d" % (k, t) for k, t in enumerate(drd)]
         o += ["//@   sites ).Read = %d" % len(drd)]
-        o += ["//@   site ).Write#%d assert [C16] $2 == %d" % (k, t) for k, t in enumerate(dwr) if t is not None]
+        o += ["//@   site ).Write#%d assert [C01,C16] $2 == %d" % (k, t) for k, t in enumerate(dwr) if t is not None]
         o += ["//@   sites ).Write = %d" % len(dwr), "//"]
     return o
 
@@ -703,6 +708,10 @@ def schema_contract(pkg, ty, mem, fields, idl=None, src=None):
     return o
 
 GOFILE, IDLFILE = {}, {}
+# checked-in proxies / dispatchers (*.tars.go, generated without trace code) that get the interface contracts too
+IFACE_IDL = {"adminf": "AdminF.tars", "authf": "AuthF.tars", "configf": "ConfigF.tars", "nodef": "NodeF.tars",
+             "notifyf": "NotifyF.tars"}  # (queryf, logf, statf, propertyf: every operation has a container parameter or result)
+IFACE_ONLY = ["adminf"]  # packages without a struct file of their own
 
 def enum_check(pkg, src):
     """Executed closed check (no quantifier): every enumerator constant of the generated file has the value the IDL
@@ -832,13 +841,24 @@ def main():
             text = text.rstrip("\n") + "\n//\n" + "\n".join(ic).rstrip("/\n") + "\n"
         open(os.path.join(os.path.dirname(GOFILE[pkg]), "contracts_verif.go"), "w").write(text)
         return
-    for pkg in pkgs:
-        text = gen(pkg)
+    for pkg in pkgs + [x for x in IFACE_ONLY if x not in pkgs]:
+        if pkg in IFACE_ONLY:
+            text = "\n".join(["//go:build verif", "",
+                "// Contracts for the generated proxies and dispatcher of this package, derived mechanically from the IDL file by",
+                "// /verif/tools/gencontracts.py; checked by /verif/govc. Comments only.", "", "package " + pkg, ""]) + "\n"
+        else:
+            text = gen(pkg)
+        if pkg in IFACE_IDL:
+            IDLFILE[pkg] = "%s/tars/protocol/res/%s" % (REPO, IFACE_IDL[pkg])
+            ic = iface_contracts(pkg, trace=False)
+            if ic:
+                text = text.rstrip("\n") + "\n//\n" + "\n".join(ic).rstrip("/\n") + "\n"
         path = "%s/tars/protocol/res/%s/contracts_verif.go" % (REPO, pkg)
         if check:
             if not os.path.exists(path) or open(path).read() != text:
                 print("contracts of", pkg, "are not up to date"); bad = 1
         else:
-            open(path, "w").write(text)
+            open(path + ".tmp", "w").write(text)
+            os.replace(path + ".tmp", path)  # atomic: a check running concurrently never reads a half-written file
     sys.exit(bad)
 main()
